@@ -14,6 +14,7 @@ import (
 	"encoding/json"
 	"errors"
 	"fmt"
+	"time"
 
 	dsl "github.com/ahimsalabs/durable-streams-go/durablestream"
 	"github.com/ahimsalabs/durable-streams-go/durablestream/transport"
@@ -32,6 +33,8 @@ var (
 	vmDSReads    = 0
 	vmDSChunked  = false // the server may cut read responses short
 	vmDSStrict   = false // the server rejects offsets it did not issue (the library's own server parses a leading number and ignores the rest)
+	vmDSFailAppend = -1  // index of the Append request the server answers with 503 (-1: none)
+	vmDSAppends    = 0
 )
 
 type vmDSTransport struct{ base string }
@@ -69,6 +72,11 @@ func (t *vmDSTransport) Append(ctx context.Context, req transport.AppendRequest)
 	}
 	if ctx.Err() != nil {
 		return nil, ctx.Err()
+	}
+	i := vmDSAppends
+	vmDSAppends++
+	if i == vmDSFailAppend {
+		return nil, &transport.Error{Code: "UNAVAILABLE", Message: "service unavailable", StatusCode: 503}
 	}
 	s.msgs = append(s.msgs, json.RawMessage(req.Data))
 	return &transport.AppendResponse{NextOffset: vmDSOffset(len(s.msgs))}, nil
@@ -140,3 +148,55 @@ func vmDSNewClient(baseURL string, cfg *dsl.ClientConfig) *dsl.Client {
 
 // vdsServer: symbolic-mode counterpart of the native helper (a fresh server per name).
 func vdsServer(name string) string { return "http://model/" + name }
+
+// The library's HTTP transport itself (reached when a store builds its client
+// with NewClientWithTransport over NewHTTPTransport, possibly wrapped in the
+// library's middleware, which then runs as real code): its requests go to the
+// same model server.
+var vmDSHTTP = map[*transport.HTTPTransport]*vmDSTransport{}
+
+//verif:redirect github.com/ahimsalabs/durable-streams-go/durablestream/transport.NewHTTPTransport
+func vmDSNewHTTPTransport(baseURL string, cfg *transport.HTTPConfig) *transport.HTTPTransport {
+	t := new(transport.HTTPTransport)
+	vmDSHTTP[t] = &vmDSTransport{base: baseURL}
+	return t
+}
+
+//verif:redirect (*github.com/ahimsalabs/durable-streams-go/durablestream/transport.HTTPTransport).Create
+func vmDSHTTPCreate(t *transport.HTTPTransport, ctx context.Context, req transport.CreateRequest) (*transport.CreateResponse, error) {
+	return vmDSHTTP[t].Create(ctx, req)
+}
+
+//verif:redirect (*github.com/ahimsalabs/durable-streams-go/durablestream/transport.HTTPTransport).Head
+func vmDSHTTPHead(t *transport.HTTPTransport, ctx context.Context, req transport.HeadRequest) (*transport.HeadResponse, error) {
+	return vmDSHTTP[t].Head(ctx, req)
+}
+
+//verif:redirect (*github.com/ahimsalabs/durable-streams-go/durablestream/transport.HTTPTransport).Delete
+func vmDSHTTPDelete(t *transport.HTTPTransport, ctx context.Context, req transport.DeleteRequest) error {
+	return vmDSHTTP[t].Delete(ctx, req)
+}
+
+//verif:redirect (*github.com/ahimsalabs/durable-streams-go/durablestream/transport.HTTPTransport).Append
+func vmDSHTTPAppend(t *transport.HTTPTransport, ctx context.Context, req transport.AppendRequest) (*transport.AppendResponse, error) {
+	return vmDSHTTP[t].Append(ctx, req)
+}
+
+//verif:redirect (*github.com/ahimsalabs/durable-streams-go/durablestream/transport.HTTPTransport).Read
+func vmDSHTTPRead(t *transport.HTTPTransport, ctx context.Context, req transport.ReadRequest) (*transport.ReadResponse, error) {
+	return vmDSHTTP[t].Read(ctx, req)
+}
+
+//verif:redirect (*github.com/ahimsalabs/durable-streams-go/durablestream/transport.HTTPTransport).LongPoll
+func vmDSHTTPLongPoll(t *transport.HTTPTransport, ctx context.Context, req transport.LongPollRequest) (*transport.ReadResponse, error) {
+	return vmDSHTTP[t].LongPoll(ctx, req)
+}
+
+// time.After in the library's back-off: model time passes at once.
+//
+//verif:redirect time.After
+func vmDSTimeAfter(d time.Duration) <-chan time.Time {
+	ch := make(chan time.Time, 1)
+	ch <- time.Time{}
+	return ch
+}
